@@ -3,6 +3,7 @@ Property theorems for RobotWarehouse (R model: the resampled request ids are a d
 theorem holds for ALL draws).  Proofs in Env/RobotWarehouse/Lemmas.lean.
 -/
 import JumanjiModel.Env.RobotWarehouse.Lemmas
+import JumanjiModel.Env.RobotWarehouse.Bounds
 open Jm RobotWarehouse
 
 namespace Props.C04
@@ -76,3 +77,24 @@ theorem rware_obs_copied_partial (cfg : Cfg) (s : State) (a d : List Int) :
 example : makeObservations Props.C04.rwareWitCfg Props.C04.rwareWit.world =
     (observe Props.C04.rwareWitCfg Props.C04.rwareWit).view := by decide
 end Props.C12
+
+namespace Props.C01
+/-- reset: the observation built from a generated state (step count 0) has `action_mask ∈ [0, 1]` and
+`step_count ∈ [0, time_limit]`; `agents_view` is declared unbounded (`specs.Array`) and listed as such -/
+theorem robot_warehouse_reset_obs_in_bounds (cfg : Cfg) (s : State) (hs : s.stepCount = 0) (hT : 0 ≤ cfg.timeLimit) :
+    ObsInBounds (obsBounds cfg) (resetObs cfg s) := RobotWarehouse.reset_obs_in_bounds cfg s hs hT
+
+/-- step: for EVERY state whose step count lies in `[0, time_limit)` (the step that reaches `time_limit`, and a
+step ended by a collision, included), every joint action and every draw of the resampled requests, every leaf
+of the observation is inside its interval of `obsBounds cfg` -/
+theorem robot_warehouse_step_obs_in_bounds (cfg : Cfg) (s : State) (a d : List Int) (h0 : 0 ≤ s.stepCount)
+    (hT : s.stepCount < cfg.timeLimit) :
+    ObsInBounds (obsBounds cfg) (step cfg s a d).2.obs := RobotWarehouse.step_obs_in_bounds cfg s a d h0 hT
+
+/-- the bounds list covers every leaf of the observation -/
+theorem robot_warehouse_obs_bounds_cover (cfg : Cfg) (o : Obs) :
+    (obsLeaves o).map (·.1) = (obsBounds cfg).map (·.1) := RobotWarehouse.obsBounds_cover cfg o
+
+/-- the bound is attained: with `time_limit = 1` the first step emits `step_count = 1` -/
+example : (step { Props.C04.rwareWitCfg with timeLimit := 1 } Props.C04.rwareWit [0] []).2.obs.stepCount = 1 := by decide
+end Props.C01
